@@ -333,7 +333,7 @@ func outLast() any                               { return nil }
 //@ loop 1 invariant [C08 C14] list-apart: found != nil && is[[]any](value) ==> !sameBase(found.list, as[[]any](value))
 //@ loop 2 invariant [C08 C14] list-apart: found != nil && is[[]any](value) ==> !sameBase(found.list, as[[]any](value))
 //@ loop 1 invariant [C09 C14 C07] last-restored: exec.innermostArraySize == old(exec.innermostArraySize)
-//@ atcall execSubscript assert [C14 C09] last-is-this-array: exec.innermostArraySize == size && arg_arraySize == size && arg_value == value
+//@ atcall execSubscript assert [C14 C09 C07] last-is-this-array: exec.innermostArraySize == size && arg_arraySize == size && arg_value == value
 //@ atcall executeNextItem assert [C09] last-is-the-outer-array-again: exec.innermostArraySize == old(exec.innermostArraySize)
 //@ loop 1 invariant [C07 C20] no-pending: pendingErr() == nil && !pendingFailed() && resErr == nil && res != statusFailed
 //@ loop 1 invariant status: res == statusOK || res == statusNotFound
@@ -609,21 +609,21 @@ func isUnknownSpec(a predOutcome) predOutcome {
 //@ props C12 C10
 //@ requires left != nil
 //@ loop 1 invariant [C20 C05] no-pending: pendingErr() == nil && !pendingFailed()
-//@ loop 1 invariant [C12] flags: (found ==> exec.path.IsStrict()) && (hasErr ==> !exec.path.IsStrict())
-//@ loop 1 invariant [C12] lax-none-true: !exec.path.IsStrict() ==> forall(func(i int, j int) bool { return implies(0 <= i && i <= rangeindex1 && 0 <= j && j < len(rSeq.list), dynret[predOutcome](callback, 0, ctx, pred, lSeq.list[i], rSeq.list[j]) != predTrue) })
-//@ loop 1 invariant [C12] strict-none-unknown: exec.path.IsStrict() ==> forall(func(i int, j int) bool { return implies(0 <= i && i <= rangeindex1 && 0 <= j && j < len(rSeq.list), dynret[predOutcome](callback, 0, ctx, pred, lSeq.list[i], rSeq.list[j]) != predUnknown) })
-//@ loop 1 invariant [C12] all-false-so-far: !found && !hasErr ==> forall(func(i int, j int) bool { return implies(0 <= i && i <= rangeindex1 && 0 <= j && j < len(rSeq.list), dynret[predOutcome](callback, 0, ctx, pred, lSeq.list[i], rSeq.list[j]) == predFalse) })
+//@ loop 1 invariant [C12 C10] flags: (found ==> exec.path.IsStrict()) && (hasErr ==> !exec.path.IsStrict())
+//@ loop 1 invariant [C12 C10] lax-none-true: !exec.path.IsStrict() ==> forall(func(i int, j int) bool { return implies(0 <= i && i <= rangeindex1 && 0 <= j && j < len(rSeq.list), dynret[predOutcome](callback, 0, ctx, pred, lSeq.list[i], rSeq.list[j]) != predTrue) })
+//@ loop 1 invariant [C12 C10] strict-none-unknown: exec.path.IsStrict() ==> forall(func(i int, j int) bool { return implies(0 <= i && i <= rangeindex1 && 0 <= j && j < len(rSeq.list), dynret[predOutcome](callback, 0, ctx, pred, lSeq.list[i], rSeq.list[j]) != predUnknown) })
+//@ loop 1 invariant [C12 C10] all-false-so-far: !found && !hasErr ==> forall(func(i int, j int) bool { return implies(0 <= i && i <= rangeindex1 && 0 <= j && j < len(rSeq.list), dynret[predOutcome](callback, 0, ctx, pred, lSeq.list[i], rSeq.list[j]) == predFalse) })
 //@ loop 2 invariant [C20 C05] no-pending: pendingErr() == nil && !pendingFailed()
-//@ loop 2 invariant [C12] flags: (found ==> exec.path.IsStrict()) && (hasErr ==> !exec.path.IsStrict())
-//@ loop 2 invariant [C12] lax-none-true: !exec.path.IsStrict() ==> forall(func(i int, j int) bool { return implies(0 <= i && 0 <= j && j < len(rSeq.list) && (i < rangeindex1 || (i == rangeindex1 && j <= rangeindex2)), dynret[predOutcome](callback, 0, ctx, pred, lSeq.list[i], rSeq.list[j]) != predTrue) })
-//@ loop 2 invariant [C12] strict-none-unknown: exec.path.IsStrict() ==> forall(func(i int, j int) bool { return implies(0 <= i && 0 <= j && j < len(rSeq.list) && (i < rangeindex1 || (i == rangeindex1 && j <= rangeindex2)), dynret[predOutcome](callback, 0, ctx, pred, lSeq.list[i], rSeq.list[j]) != predUnknown) })
-//@ loop 2 invariant [C12] all-false-so-far: !found && !hasErr ==> forall(func(i int, j int) bool { return implies(0 <= i && 0 <= j && j < len(rSeq.list) && (i < rangeindex1 || (i == rangeindex1 && j <= rangeindex2)), dynret[predOutcome](callback, 0, ctx, pred, lSeq.list[i], rSeq.list[j]) == predFalse) })
+//@ loop 2 invariant [C12 C10] flags: (found ==> exec.path.IsStrict()) && (hasErr ==> !exec.path.IsStrict())
+//@ loop 2 invariant [C12 C10] lax-none-true: !exec.path.IsStrict() ==> forall(func(i int, j int) bool { return implies(0 <= i && 0 <= j && j < len(rSeq.list) && (i < rangeindex1 || (i == rangeindex1 && j <= rangeindex2)), dynret[predOutcome](callback, 0, ctx, pred, lSeq.list[i], rSeq.list[j]) != predTrue) })
+//@ loop 2 invariant [C12 C10] strict-none-unknown: exec.path.IsStrict() ==> forall(func(i int, j int) bool { return implies(0 <= i && 0 <= j && j < len(rSeq.list) && (i < rangeindex1 || (i == rangeindex1 && j <= rangeindex2)), dynret[predOutcome](callback, 0, ctx, pred, lSeq.list[i], rSeq.list[j]) != predUnknown) })
+//@ loop 2 invariant [C12 C10] all-false-so-far: !found && !hasErr ==> forall(func(i int, j int) bool { return implies(0 <= i && 0 <= j && j < len(rSeq.list) && (i < rangeindex1 || (i == rangeindex1 && j <= rangeindex2)), dynret[predOutcome](callback, 0, ctx, pred, lSeq.list[i], rSeq.list[j]) == predFalse) })
 //@ atcall executeItemOptUnwrapResultSilent assert [C12 C10] operands: arg_value == value && (arg_node == left && arg_unwrap || arg_node == right && arg_unwrap == unwrapRightArg)
-//@ ensures [C12] local-lax-false: !exec.path.IsStrict() && r0 == predFalse && r1 == nil ==> forall(func(i int, j int) bool { return implies(0 <= i && i < len(lSeq.list) && 0 <= j && j < len(rSeq.list), dynret[predOutcome](callback, 0, ctx, pred, lSeq.list[i], rSeq.list[j]) == predFalse) })
-//@ ensures [C12] local-lax-unknown: !exec.path.IsStrict() && r0 == predUnknown && r1 == nil && pendingFailed() == false ==> forall(func(i int, j int) bool { return implies(0 <= i && i < len(lSeq.list) && 0 <= j && j < len(rSeq.list), dynret[predOutcome](callback, 0, ctx, pred, lSeq.list[i], rSeq.list[j]) != predTrue) })
+//@ ensures [C12 C10] local-lax-false: !exec.path.IsStrict() && r0 == predFalse && r1 == nil ==> forall(func(i int, j int) bool { return implies(0 <= i && i < len(lSeq.list) && 0 <= j && j < len(rSeq.list), dynret[predOutcome](callback, 0, ctx, pred, lSeq.list[i], rSeq.list[j]) == predFalse) })
+//@ ensures [C12 C10] local-lax-unknown: !exec.path.IsStrict() && r0 == predUnknown && r1 == nil && pendingFailed() == false ==> forall(func(i int, j int) bool { return implies(0 <= i && i < len(lSeq.list) && 0 <= j && j < len(rSeq.list), dynret[predOutcome](callback, 0, ctx, pred, lSeq.list[i], rSeq.list[j]) != predTrue) })
 //@ ensures [C12 C01 C10] local-strict-true: exec.path.IsStrict() && r0 == predTrue ==> forall(func(i int, j int) bool { return implies(0 <= i && i < len(lSeq.list) && 0 <= j && j < len(rSeq.list), dynret[predOutcome](callback, 0, ctx, pred, lSeq.list[i], rSeq.list[j]) != predUnknown) })
-//@ ensures [C12] local-strict-false: exec.path.IsStrict() && r0 == predFalse ==> forall(func(i int, j int) bool { return implies(0 <= i && i < len(lSeq.list) && 0 <= j && j < len(rSeq.list), dynret[predOutcome](callback, 0, ctx, pred, lSeq.list[i], rSeq.list[j]) == predFalse) })
-//@ ensures [C12] true-witness: r0 == predTrue && !exec.path.IsStrict() ==> ncalls(callback) >= 1 && callret[predOutcome](callback, 0) == predTrue
+//@ ensures [C12 C10] local-strict-false: exec.path.IsStrict() && r0 == predFalse ==> forall(func(i int, j int) bool { return implies(0 <= i && i < len(lSeq.list) && 0 <= j && j < len(rSeq.list), dynret[predOutcome](callback, 0, ctx, pred, lSeq.list[i], rSeq.list[j]) == predFalse) })
+//@ ensures [C12 C10] true-witness: r0 == predTrue && !exec.path.IsStrict() ==> ncalls(callback) >= 1 && callret[predOutcome](callback, 0) == predTrue
 //@ ensures [C10 C08] operand-failure-is-unknown: pendingFailed() ==> r0 == predUnknown
 //@ ensures [C10 C11 C08] both-operands-evaluated: right != nil && firstret[resultStatus](exec.executeItemOptUnwrapResultSilent, 0) != statusFailed ==> ncalls(exec.executeItemOptUnwrapResultSilent) == 2
 //@ ensures [C10 C11] left-operand-evaluated: ncalls(exec.executeItemOptUnwrapResultSilent) >= 1
